@@ -92,6 +92,15 @@ CHECKS.update({
     ),
 })
 
+CHECKS.update({
+    "C12": (
+        "Hypothesis circuit generator with boosted permutation / cancelling / occupied-target shapes; oracle: dense unitary of optimizer output vs input, gate count, input immutability",
+        "Generated circuits (classical sections between non-classical gates and barriers, 1..5 qubits) are passed to circuit_boolean_optimizer without a preserve list; the result must have the same qubit count and exactly the same unitary, no more gates, the input gate list must be unchanged and no exception may escape. Sampled over circuits; full unitary comparison per circuit.",
+        "Trusts the dense simulator (validated against qiskit); exact equality up to 1e-9, not up to global phase.",
+        "DESIGN.md section 3 C12",
+    ),
+})
+
 NOT_YET = "check not built yet in this session (work in progress; see DESIGN.md section 3)"
 
 
